@@ -147,3 +147,41 @@ def decodeISResp (bs : Bytes) : Option WISResp :=
   (parseMessage bs).map fun fs => { term := getVarint fs 1, bytesWritten := getVarint fs 2 }
 
 end Raft.Codec
+
+namespace Raft.Codec
+open Raft.Bytes
+
+/-! `Configuration`: two proto maps and an index. A map is a repeated entry message
+    (key = field 1, value = field 2; protobuf-go always emits both, also when empty or
+    false) in an unspecified order; the model keeps association lists in wire order, so a
+    statement for every list is a statement for every order the Go map iteration can take.
+    On decoding, a later entry for the same key overrides an earlier one (`lookupLast`). -/
+structure WCfg where
+  members : List (Bytes × Bytes) := []
+  voters : List (Bytes × Bool) := []
+  index : Nat := 0
+deriving DecidableEq, Repr, Inhabited
+
+def memberField (kv : Bytes × Bytes) : Field := .bytes 1 (encodeFields [.bytes 1 kv.1, .bytes 2 kv.2])
+def voterField (kv : Bytes × Bool) : Field := .bytes 2 (encodeFields [.bytes 1 kv.1, .varint 2 (if kv.2 then 1 else 0)])
+
+def cfgFields (c : WCfg) : List Field := c.members.map memberField ++ c.voters.map voterField ++ optV 3 c.index
+
+def decodeMember (bs : Bytes) : Option (Bytes × Bytes) :=
+  (parseMessage bs).map fun fs => (getBytes fs 1, getBytes fs 2)
+def decodeVoter (bs : Bytes) : Option (Bytes × Bool) :=
+  (parseMessage bs).map fun fs => (getBytes fs 1, getVarint fs 2 != 0)
+
+def decodeCfg (bs : Bytes) : Option WCfg :=
+  match parseMessage bs with
+  | none => none
+  | some fs =>
+    match (getRepeated fs 1).mapM decodeMember, (getRepeated fs 2).mapM decodeVoter with
+    | some ms, some vs => some { members := ms, voters := vs, index := getVarint fs 3 }
+    | _, _ => none
+
+/-- the value a Go map holds for `k` after the entries were inserted in wire order -/
+def lookupLast {α : Type} (l : List (Bytes × α)) (k : Bytes) : Option α :=
+  l.foldl (fun acc kv => if kv.1 = k then some kv.2 else acc) none
+
+end Raft.Codec
